@@ -462,7 +462,9 @@ VariablesStack::findEntry(
     // There is guaranteed to be a context marker at
     // the bottom of the stack, so i should stop at
     // 1.
-    for(size_type i = nElems - 1; i > 0; --i)
+    // nElems is 0 while the top-level parameters supplied by the caller are
+    // evaluated (no stack frame exists yet): there is nothing local to search.
+    for(size_type i = nElems == 0 ? 0 : nElems - 1; i > 0; --i)
     {
         StackEntry&                 theEntry = m_stack[i];
 
@@ -500,7 +502,10 @@ VariablesStack::findEntry(
         }
     }
 
-    if(theEntryIndex == m_stack.size() && fIsParam == false && true == fSearchGlobalSpace && m_globalStackFrameIndex > 1)
+    // m_globalStackFrameIndex is ~0u until the global frame has been marked (the
+    // top-level parameters supplied by the caller are evaluated before that).
+    if(theEntryIndex == m_stack.size() && fIsParam == false && true == fSearchGlobalSpace &&
+       m_globalStackFrameIndex > 1 && m_globalStackFrameIndex <= m_stack.size())
     {
         // Look in the global space
         for(size_type i = m_globalStackFrameIndex - 1; i > 0; i--)
